@@ -1,7 +1,7 @@
 (* Props/C20.v — archive creation is a pure function of its sources; reading modifies nothing.
    Level: PARTIAL for the file-system half (that list/extract and the sources' bytes on disk are
    untouched is observed by the harness: hashes before/after on real runs); full for the byte half. *)
-Require Import PyBase Tape Disk DiskDefs CliProofs.
+Require Import PyBase Tape Disk DiskDefs CliProofs FindingProofs.
 Open Scope Z_scope.
 
 (* the bytes of a created tape depend only on the ordered (catalogue fields, content) of the
@@ -47,3 +47,17 @@ Theorem C20_reads_are_readonly : forall (v is_fd : bool) (raw arch : list Z) (p 
      exists l, p = path_join (dirname arch) l /\ existsb (Z.eqb 47) l = false).
 Proof. exact reads_write_nothing_else. Qed.
 Print Assumptions C20_reads_are_readonly.
+
+(* REFUTED for one family of archives (finding F18, recorded in known_findings.json): 'extract
+   leaves the archive byte-identical' is false of the faithful model - hence of the tool - when a
+   tape holds a member whose NAME.EXT is the archive's own file name and no --into is given: the
+   member is written beside the archive, that is over it.  The witness (IN.K7 created from
+   x/IN.K7 = 'hello', then extracted) is evaluated here and replayed on the real tool by the check. *)
+Theorem C20_tape_extract_keeps_archive_refuted :
+  exists (fs : fsmap) (arch : list Z) (srcs : list (list Z)) (raw c : list Z),
+    o_status (tar_create false fs arch srcs) = 0 /\
+    o_effects (tar_create false fs arch srcs) = [WriteFile arch raw] /\
+    o_status (tar_extract false None arch raw) = 0 /\
+    o_effects (tar_extract false None arch raw) = [WriteFile arch c] /\ c <> raw.
+Proof. exact tape_extract_can_overwrite_its_archive. Qed.
+Print Assumptions C20_tape_extract_keeps_archive_refuted.
